@@ -10,23 +10,21 @@
 #ifndef NMAX
 #define NMAX 3
 #endif
-#define BIG BLOCK       /* 12 >= largest capacity reachable: max(cap+n, 2*cap, 4, resize target 9) */
+#define BIG 12          /* >= largest capacity reachable: max(cap+n, 2*cap, 4, resize target 9) */
 #define OLDN (2 * BIG)   /* snapshot buffers: large enough for every index expression below */
 
+static size_type g_maxsize;
 static void havoc_ghosts(void) {
   ghost_threw = 0;                                  /* precondition: no exception in flight */
-  ghost_max_size = nondet_unsigned();
-  __CPROVER_assume(1 <= ghost_max_size && ghost_max_size <= (unsigned)INT_MAX);
+  ghost_max_size = g_maxsize;                       /* chosen by the driver (concrete: keeps every size and pointer concrete) */
   ghost_ncopy = ghost_nmove = ghost_ndefault = ghost_ndtor = ghost_nalloc = ghost_nfree = 0;
 }
 
 /* arbitrary well-formed owner array within the bound; old[] := its abstract sequence */
 static bool mk_array(struct Arr* a, int old[OLDN], size_type cap, size_type sz) {
   if (!(cap <= CAPMAX && sz <= cap && cap <= ghost_max_size)) return false;       /* WF precondition: size <= capacity <= max_size */
-  a->pData = cap ? (Elem*)calloc(BLOCK, sizeof(Elem)) : 0;
-  for (size_type k = 0; k < CAPMAX; k++)
-    if (k < sz) { a->pData[k].life = LIVE; a->pData[k].val = nondet_int(); old[k] = a->pData[k].val; }
-  if (cap) for (size_type k = 0; k < BLOCK; k++) if (k >= cap) a->pData[k].life = OUT;
+  a->pData = cap ? (Elem*)calloc(cap, sizeof(Elem)) : 0;
+  for (size_type k = 0; k < sz; k++) { a->pData[k].life = LIVE; a->pData[k].val = nondet_int(); old[k] = a->pData[k].val; }
   a->nUsed = sz; a->nAllocated = cap;
   return true;
 }
@@ -35,16 +33,16 @@ static bool mk_array(struct Arr* a, int old[OLDN], size_type cap, size_type sz) 
   __CPROVER_assert((a)->nUsed <= (a)->nAllocated && (a)->nAllocated <= ghost_max_size, "WF: size <= capacity <= max_size"); \
   __CPROVER_assert(((a)->pData == 0) == ((a)->nAllocated == 0), "WF: data == 0 iff capacity == 0"); \
   if ((a)->pData) { \
-    __CPROVER_assert(__CPROVER_POINTER_OFFSET((a)->pData) == 0 && ((a)->nAllocated >= BLOCK || (a)->pData[(a)->nAllocated].life == OUT), \
+    __CPROVER_assert(__CPROVER_POINTER_OFFSET((a)->pData) == 0 && __CPROVER_OBJECT_SIZE((a)->pData) == (a)->nAllocated * sizeof(Elem), \
                      "WF: data is one allocN block of exactly capacity slots"); \
-    for (size_type k_ = 0; k_ < BIG; k_++) if (k_ < (a)->nAllocated) \
+    for (size_type k_ = 0; k_ < (a)->nAllocated; k_++) \
       __CPROVER_assert((a)->pData[k_].life == (k_ < (a)->nUsed ? LIVE : RAW), "WF: slots [0,size) live, [size,capacity) raw"); \
   } } while (0)
 
 /* whole abstract sequence equals expect[0..m) */
 #define CHECK_SEQ(a, expect, m, what) do { \
   __CPROVER_assert((a)->nUsed == (m), what ": size"); \
-  for (size_type k_ = 0; k_ < BIG; k_++) if (k_ < (m) && k_ < (a)->nUsed) \
+  for (size_type k_ = 0; k_ < (m) && k_ < (a)->nUsed; k_++) \
     __CPROVER_assert((a)->pData[k_].val == (expect)[k_], what ": every element value (whole sequence, order preserved)"); \
   } while (0)
 
@@ -74,7 +72,7 @@ static void insert_post(struct Arr* a, int* old, size_type sz0, size_type cap0, 
     return;
   }
   int expect[BIG];
-  for (size_type i = 0; i < BIG; i++) expect[i] = i < k ? old[i] : i < k + n ? vval : old[i - n];
+  for (size_type i = 0; i < sz0 + n; i++) expect[i] = i < k ? old[i] : i < k + n ? vval : old[i - n];
   CHECK_WF(a);
   CHECK_SEQ(a, expect, sz0 + n, "insert(p,n,v): seq' == seq[0..k) ++ [v]^n ++ seq[k..)");
   __CPROVER_assert(r == a->pData + k, "insert returns a pointer to the first inserted element");
@@ -110,8 +108,8 @@ static void gap_post(struct Arr* a, int* old, size_type sz0, size_type cap0, siz
   __CPROVER_assert(a->nUsed == sz0 && a->nAllocated >= sz0 + n && a->nAllocated <= ghost_max_size, "gap: size unchanged, capacity holds size+n, <= max_size");
   if (must_grow) __CPROVER_assert(a->nAllocated >= cap0 + n, "growWithGap/growAtEnd: capacity grows by at least n");
   __CPROVER_assert(r == a->pData + k, "gap: returns the gap position");
-  __CPROVER_assert(__CPROVER_POINTER_OFFSET(a->pData) == 0 && (a->nAllocated >= BLOCK || a->pData[a->nAllocated].life == OUT), "gap: data is one block of capacity slots");
-  for (size_type i = 0; i < BIG; i++) if (i < a->nAllocated) {
+  __CPROVER_assert(__CPROVER_POINTER_OFFSET(a->pData) == 0 && __CPROVER_OBJECT_SIZE(a->pData) == a->nAllocated * sizeof(Elem), "gap: data is one block of capacity slots");
+  for (size_type i = 0; i < a->nAllocated; i++) {
     bool live = i < k || (i >= k + n && i < sz0 + n);
     __CPROVER_assert(a->pData[i].life == (live ? LIVE : RAW), "gap: [0,k) and [k+n,size+n) live, the gap and the tail raw");
     if (live) __CPROVER_assert(a->pData[i].val == old[i < k ? i : i - n], "gap: elements keep value and order");
@@ -149,7 +147,7 @@ static void t_erase_range(size_type cap_, size_type sz_, size_type p1, size_type
   size_type i = p1, j = p2; if (!(i <= j && j <= sz0)) return;
   Elem* r = erase_range(&a, a.pData + i, a.pData + j);
   int expect[BIG];
-  for (size_type q = 0; q < BIG; q++) expect[q] = q < i ? old[q] : old[q + (j - i)];
+  for (size_type q = 0; q < sz0 - (j - i); q++) expect[q] = q < i ? old[q] : old[q + (j - i)];
   __CPROVER_assert(!ghost_threw, "erase never throws");
   CHECK_WF(&a);
   CHECK_SEQ(&a, expect, sz0 - (j - i), "erase(first,last): seq' == seq[0..i) ++ seq[j..)");
@@ -164,7 +162,7 @@ static void t_erase_one(size_type cap_, size_type sz_, size_type p1, size_type p
   size_type i = p1; if (!(i < sz0)) return;
   Elem* r = erase_one(&a, a.pData + i);
   int expect[BIG];
-  for (size_type q = 0; q < BIG; q++) expect[q] = q < i ? old[q] : old[q + 1];
+  for (size_type q = 0; q < sz0 - 1; q++) expect[q] = q < i ? old[q] : old[q + 1];
   __CPROVER_assert(!ghost_threw, "erase never throws");
   CHECK_WF(&a);
   CHECK_SEQ(&a, expect, sz0 - 1, "erase(p): seq' == seq[0..i) ++ seq[i+1..)");
@@ -178,7 +176,7 @@ static void t_eraseFast(size_type cap_, size_type sz_, size_type p1, size_type p
   size_type i = p1; if (!(i < sz0)) return;
   Elem* r = eraseFast(&a, a.pData + i);
   int expect[BIG];
-  for (size_type q = 0; q < BIG; q++) expect[q] = (q == i) ? old[sz0 - 1] : old[q];
+  for (size_type q = 0; q < sz0 - 1; q++) expect[q] = (q == i) ? old[sz0 - 1] : old[q];
   __CPROVER_assert(!ghost_threw, "eraseFast never throws");
   CHECK_WF(&a);
   CHECK_SEQ(&a, expect, sz0 - 1, "eraseFast(p): last element replaces the erased one, all others stay in place");
@@ -218,7 +216,7 @@ static void push_post(struct Arr* a, int* old, size_type sz0, size_type cap0, El
     return;
   }
   int expect[BIG];
-  for (size_type i = 0; i < BIG; i++) expect[i] = i < sz0 ? old[i] : vval;
+  for (size_type i = 0; i < sz0 + 1; i++) expect[i] = i < sz0 ? old[i] : vval;
   CHECK_WF(a);
   CHECK_SEQ(a, expect, sz0 + 1, "push_back: seq' == seq ++ [v]");
   if (sz0 < cap0) __CPROVER_assert(a->pData == data0 && a->nAllocated == cap0, "push_back with spare capacity does not reallocate");
@@ -255,7 +253,7 @@ static void t_push_back_default(size_type cap_, size_type sz_, size_type p1, siz
 #define NRESIZE (CAPMAX + NMAX)
 static void resize_post(struct Arr* a, int* old, size_type sz0, size_type cap0, Elem* data0, size_type n, int fillval, bool fill) {
   int expect[BIG];
-  for (size_type i = 0; i < BIG; i++) expect[i] = i < sz0 ? old[i] : fillval;
+  for (size_type i = 0; i < n; i++) expect[i] = i < sz0 ? old[i] : fillval;
   __CPROVER_assert(!ghost_threw, "resize: no exception for n <= max_size");
   CHECK_WF(a);
   CHECK_SEQ(a, expect, n, "resize(n): seq' == seq[0..min(n,size)) ++ [T() or v]^(n-size)");
@@ -307,48 +305,116 @@ static void t_shrink_to_fit(size_type cap_, size_type sz_, size_type p1, size_ty
   CHECK_COUNTS(0, moved ? sz0 : 0, 0, moved ? sz0 : 0, "shrink_to_fit");
   CHECK_BLOCKS(&a, cap0);
 }
-static void t_swap(size_type cap_, size_type sz_, size_type p1, size_type p2) {
-  if (!(p2 <= p1)) return;
-  struct Arr a, b; int olda[OLDN], oldb[OLDN]; havoc_ghosts(); if (!mk_array(&a, olda, cap_, sz_) || !mk_array(&b, oldb, p1, p2)) return;
+/* swap is loop-free and touches no element: UNBOUNDED (arbitrary pointers, sizes, capacities; the abstract sequence is a function of (data,size)) */
+void h_swap(void) {
+  struct Arr a, b; havoc_ghosts();
   struct Arr a0 = a, b0 = b;
   swap(&a, &b);
-  CHECK_WF(&a); CHECK_WF(&b);
-  __CPROVER_assert(a.pData == b0.pData && a.nAllocated == b0.nAllocated && b.pData == a0.pData && b.nAllocated == a0.nAllocated, "swap exchanges storage and capacity");
-  CHECK_SEQ(&a, oldb, b0.nUsed, "swap: a' == b");
-  CHECK_SEQ(&b, olda, a0.nUsed, "swap: b' == a");
-  __CPROVER_assert(ghost_ncopy + ghost_nmove + ghost_ndefault + ghost_ndtor + ghost_nalloc + ghost_nfree == 0 && !ghost_threw, "swap: no constructor/destructor/allocator call");
+  __CPROVER_assert(a.pData == b0.pData && a.nUsed == b0.nUsed && a.nAllocated == b0.nAllocated, "swap: a' has b's storage, size and capacity (so a' == b as sequences, WF carried over)");
+  __CPROVER_assert(b.pData == a0.pData && b.nUsed == a0.nUsed && b.nAllocated == a0.nAllocated, "swap: b' has a's storage, size and capacity");
+  __CPROVER_assert(ghost_ncopy + ghost_nmove + ghost_ndefault + ghost_ndtor + ghost_nalloc + ghost_nfree == 0 && !ghost_threw, "swap: no constructor/destructor/allocator call, no exception");
 }
 
 /* ------------------------------------------------------------------ drivers ------------------------------------------------------------------
-   Every (capacity, size, position/count) combination within the bound is run with CONCRETE sizes and positions (so CBMC resolves every
-   pointer) and SYMBOLIC element values, source value, moved-from/destroyed garbage and max_size. */
+   Every (max_size, capacity, size, position/count) combination within the bound is run with CONCRETE sizes and positions (CBMC then
+   resolves every pointer and every loop trip count during symbolic execution) and SYMBOLIC element values, source value and
+   moved-from/destroyed garbage.
+   variant MAIN  : max_size = INT_MAX (ArrayIndexTraits<unsigned>), capacity <= CAPMAX, all sizes/positions, n <= NMAX
+   variant SMALLMAX: max_size in [1, CAPMAX+NMAX] (narrow index types: exception + saturation paths of the growth policy), capacity <= min(CAPMAX, max_size) */
+#ifndef PAIR_LO          /* chunking: (capacity,size) pairs are numbered cap*(cap+1)/2+size; one cbmc run covers pairs [PAIR_LO, PAIR_HI] */
+#define PAIR_LO 0
+#endif
+#ifndef PAIR_HI
+#define PAIR_HI 100000
+#endif
+#ifdef SMALLMAX
+#ifndef MX_LO
+#define MX_LO 1u
+#endif
+#ifndef MX_HI
+#define MX_HI (CAPMAX + NMAX)
+#endif
+#else
+#define MX_LO ((unsigned)INT_MAX)
+#define MX_HI ((unsigned)INT_MAX)
+#endif
 #define DRIVER(name, P1MAX, P2MAX) \
   void h_##name(void) { \
-    for (size_type cap = 0; cap <= CAPMAX; cap++) for (size_type sz = 0; sz <= cap; sz++) \
-      for (size_type p1 = 0; p1 <= (P1MAX); p1++) for (size_type p2 = 0; p2 <= (P2MAX); p2++) t_##name(cap, sz, p1, p2); }
-DRIVER(insert_n, CAPMAX, NMAX)        /* p1 = position k <= size, p2 = n */
-DRIVER(insert_one, CAPMAX, 0)
-DRIVER(insertGapAt, CAPMAX, NMAX)
-DRIVER(growWithGap, CAPMAX, NMAX)
+    for (size_type mx = MX_LO; mx <= MX_HI && mx >= MX_LO; mx++) { g_maxsize = mx; size_type pair = 0; \
+    for (size_type cap = 0; cap <= CAPMAX; cap++) for (size_type sz = 0; sz <= cap; sz++, pair++) if (pair >= PAIR_LO && pair <= PAIR_HI) \
+      for (size_type p1 = 0; p1 <= (P1MAX); p1++) for (size_type p2 = 0; p2 <= (P2MAX); p2++) t_##name(cap, sz, p1, p2); } }
+DRIVER(insert_n, sz, NMAX)            /* p1 = position k <= size, p2 = n */
+DRIVER(insert_one, sz, 0)
+DRIVER(insertGapAt, sz, NMAX)
+DRIVER(growWithGap, sz, NMAX)
 DRIVER(growAtEnd, NMAX, 0)
-DRIVER(erase_range, CAPMAX, CAPMAX)   /* p1 = i <= p2 = j <= size */
-DRIVER(erase_one, CAPMAX, 0)
-DRIVER(eraseFast, CAPMAX, 0)
+DRIVER(erase_range, sz, sz)           /* p1 = i <= p2 = j <= size */
+DRIVER(erase_one, sz, 0)
+DRIVER(eraseFast, sz, 0)
 DRIVER(pop_back, 0, 0)
 DRIVER(clear, 0, 0)
 DRIVER(push_back, 0, 0)
 DRIVER(push_back_move, 0, 0)
 DRIVER(push_back_default, 0, 0)
-DRIVER(resize, NRESIZE, 0)            /* p1 = n */
-DRIVER(resize_fill, NRESIZE, 0)
-DRIVER(reserve, NRESIZE, 0)
+DRIVER(resize, cap + NMAX, 0)            /* p1 = n <= capacity + NMAX (<= NRESIZE) */
+DRIVER(resize_fill, cap + NMAX, 0)
+DRIVER(reserve, cap + NMAX, 0)
 DRIVER(shrink_to_fit, 0, 0)
-DRIVER(swap, CAPMAX, CAPMAX)          /* p1, p2 = capacity and size of the second array */
+
+/* ------------------------------------------------------------------ huge insert count (finding F10, fixed) --------------------------------------
+   insert(p,n,v) with n > max_size - size(): the documented "would exceed max_size" exception, array unchanged. Concrete representative counts p2:
+   the smallest offending n, the largest n without size_type wrap-around, and the counts for which size()+n wraps to 0, to capacity-size (looks
+   like "fits exactly"), and to size-1 (n = UINT_MAX); capacity <= CAPMAX, every size and position. */
+static void t_insert_huge(size_type cap_, size_type sz_, size_type p1, size_type p2) {
+  struct Arr a; int old[OLDN]; havoc_ghosts(); if (!mk_array(&a, old, cap_, sz_)) return;
+  size_type sz0 = a.nUsed, cap0 = a.nAllocated; Elem* data0 = a.pData;
+  size_type k = p1; if (!(k <= sz0)) return;
+  size_type n = p2 == 0 ? ghost_max_size - sz0 + 1u : p2 == 1 ? UINT_MAX - sz0 : p2 == 2 ? UINT_MAX - sz0 + 1u : p2 == 3 ? UINT_MAX - sz0 + 1u + (cap0 - sz0) : UINT_MAX;
+  if (!(ull(n) > ull(ghost_max_size) - ull(sz0))) return;       /* (only n = 0 when size == 0 and p2 == 2,3 is filtered) */
+  Elem v; v.val = nondet_int(); v.life = LIVE;
+  insert_n(&a, a.pData + k, n, &v);
+  __CPROVER_assert(ghost_threw, "insert(p,n,v) with n > max_size - size() throws the documented exception (no size_type wrap-around of size()+n)");
+  ghost_threw = 0;
+  CHECK_UNCHANGED(&a, old, sz0, cap0, data0, "insert with a huge count leaves the array unchanged");
+}
+DRIVER(insert_huge, sz, 4)
+
+/* ------------------------------------------------------------------ value argument aliases an element (finding F11, OPEN) -----------------------
+   std::vector semantics: v.push_back(v[i]) and v.insert(p, n, v[i]) are valid calls; the inserted value is the value v[i] had AT THE CALL and no
+   destroyed/raw element is read. These two units FAIL on the pinned tree (known finding F11). */
+static void t_alias_push_back_full(size_type cap_, size_type sz_, size_type p1, size_type p2) {
+  if (!(sz_ == cap_ && p1 < sz_)) return;                        /* full array, value = element p1 */
+  struct Arr a; int old[OLDN]; havoc_ghosts(); if (!mk_array(&a, old, cap_, sz_)) return;
+  size_type sz0 = a.nUsed;
+  push_back(&a, a.pData + p1);
+  __CPROVER_assert(!ghost_threw, "push_back(a[i]) on a full array: no exception");
+  int expect[BIG];
+  for (size_type i = 0; i < sz0 + 1; i++) expect[i] = i < sz0 ? old[i] : old[p1];
+  CHECK_WF(&a);
+  CHECK_SEQ(&a, expect, sz0 + 1, "push_back(a[i]) on a full array: seq' == seq ++ [ORIGINAL a[i]]");
+}
+DRIVER(alias_push_back_full, sz, 0)
+static void t_alias_insert_within_capacity(size_type cap_, size_type sz_, size_type p1, size_type p2) {
+  size_type k = p1, n = p2;
+  if (!(k <= sz_ && n >= 1 && sz_ + n <= cap_)) return;          /* no reallocation */
+  for (size_type src = 0; src < sz_; src++) {                    /* value = element src */
+    struct Arr a; int old[OLDN]; havoc_ghosts(); if (!mk_array(&a, old, cap_, sz_)) return;
+    size_type sz0 = a.nUsed;
+    insert_n(&a, a.pData + k, n, a.pData + src);
+    __CPROVER_assert(!ghost_threw, "insert(p,n,a[i]) within capacity: no exception");
+    int expect[BIG];
+    for (size_type i = 0; i < sz0 + n; i++) expect[i] = i < k ? old[i] : i < k + n ? old[src] : old[i - n];
+    CHECK_WF(&a);
+    CHECK_SEQ(&a, expect, sz0 + n, "insert(p,n,a[i]) within capacity: seq' == seq[0..k) ++ [ORIGINAL a[i]]^n ++ seq[k..)");
+  }
+}
+DRIVER(alias_insert_within_capacity, sz, NMAX)
 
 /* ------------------------------------------------------------------ vacuity guard ------------------------------------------------------------
    the harness preconditions are satisfiable for the interesting shapes, with the ghosts really havocked (file-scope ghosts are zero-initialised) */
 void h_cover(void) {
-  struct Arr a; int old[OLDN]; havoc_ghosts();
+  struct Arr a; int old[OLDN];
+  g_maxsize = nondet_unsigned(); havoc_ghosts();
   size_type cap = nondet_unsigned(), sz = nondet_unsigned();
   if (!mk_array(&a, old, cap, sz)) return;
   if (a.nUsed == CAPMAX && ghost_max_size == (unsigned)INT_MAX) __CPROVER_cover(1);                           /* full array: insert/push_back must grow */
